@@ -46,6 +46,9 @@ LED_OPS = [
     _op("fade_out", 100, 3), _op("fade_out", step=60, delay_ms=1), _op("fade_out", 255, 4),
     _op("set_brightness", "{n}.get_brightness() // 2"), _op("blink", "{n}.get_brightness() // 16", times=2), _op("fade_in", 100, "{n}.get_brightness() // 64"),
     _op("set_brightness", "255 - {n}.get_brightness()"),
+    # patterns: 0 = off, 1 = fully on, anything else a PWM duty; the tracked state afterwards is the last entry's
+    _op("flash_pattern", [1, 0]), _op("flash_pattern", [0, 1]), _op("flash_pattern", [1]), _op("flash_pattern", [255, 0, 128], 3), _op("flash_pattern", [1, 0, 1], delay_ms=5), _op("flash_pattern", [0, 200, 1], 2),
+    _op("flash_pattern", [True, False, True], 1), _op("flash_pattern", [2, 1], 0),
 ]
 LED_GETTERS = ["{n}.get_state()", "{n}.get_brightness()"]
 
@@ -124,6 +127,8 @@ def render_op(name: str, op, mode: str, feed: List[int], pre: List[str]) -> str:
     def val(v):
         if isinstance(v, str):
             return v.replace("{n}", name)  # an expression over the device's own state, evaluated at the call
+        if isinstance(v, list):
+            return repr(v)
         if mode == "lit":
             return _fmt(v)
         var = f"v{len(feed)}"
@@ -167,6 +172,14 @@ def build_case(dev: str, seq: Sequence[int], mode: str, use_clamped: bool, place
     if placement == "setup":
         src = common.script(decl.split("\n") + lines, prologue=PRO)
         passes = 0
+    elif placement == "in_if":
+        # the commands sit in a branch (taken at run time) and nowhere else
+        src = common.script(decl.split("\n") + ["gate = analog_read(\"A5\")", "if gate >= 0:"] + common.indent(lines), prologue=PRO)
+        passes = 0
+    elif placement == "helper_above_looptop":
+        # ... and the device itself is declared at the top of the main loop's body
+        src = common.script(["def act():"] + common.indent(lines), decl.split("\n") + ["act()"], prologue=PRO)
+        passes = 1
     elif placement == "helper_above":
         # the commands live in a helper that is defined ABOVE the device declaration and called after it
         src = common.script(["def act():"] + common.indent(lines) + decl.split("\n") + ["act()"], ["act()"], prologue=PRO)
@@ -190,6 +203,9 @@ CORES = {
     "servo_narrow": [1, 3, 4, 7, 10],
     "motor": [0, 1, 6, 9, 11, 12, 13, 14, 18],
 }
+
+
+CORES["led"] += [i for i, o in enumerate(LED_OPS) if o[0] == "flash_pattern"][:4] + [i for i, o in enumerate(LED_OPS) if o[0] == "fade_out"][:1]
 
 
 # -- order of evaluation: every numeric argument is an expression over nxt() (1, 2, 3, ... in the order the calls are
@@ -257,7 +273,9 @@ def generate(tier: str, only=None) -> Iterator[dict]:
             for mode in ("lit", "rt"):
                 placements = ("setup", "loop") if (len(seq) == 1 or tier == "thorough") else ("setup",)
                 if mode == "lit" and len(seq) == 1:
-                    placements = placements + ("helper_above",)
+                    placements = placements + ("helper_above", "helper_above_looptop")
+                if mode == "lit" and len(seq) == 2 and all(i in core for i in seq):
+                    placements = placements + ("helper_above", "in_if")
                 if mode == "rt" and len(seq) > 2 and not (tier == "thorough" and len(seq) == 3 and all(i in core for i in seq)):
                     continue
                 for placement in placements:
